@@ -42,6 +42,131 @@ pub enum Mutation {
     WrongNamespace,
     DropMarker,
     DoubleMarker,
+    /// structure-preserving edit of the n-th text node (character data between `>` and `<`):
+    /// the message stays well-formed, a leaf value is damaged
+    TextEdit(u16, Edit),
+    /// the same for the n-th attribute value
+    AttrEdit(u16, Edit),
+}
+
+#[derive(Debug, Clone, Serialize, Deserialize)]
+pub enum Edit {
+    /// keep only the first k characters
+    Truncate(u16),
+    /// drop the first k characters
+    DropFront(u16),
+    DeleteChar(u16),
+    InsertChar(u16, char),
+    Empty,
+    Replace(String),
+    Duplicate,
+    /// cut right before (false) or after (true) the k-th separator character (`? = : , / & ^ - .`)
+    TruncateAtSep(u16, bool),
+    /// delete the k-th separator character
+    DeleteSep(u16),
+}
+
+fn edit_text(text: &str, e: &Edit) -> String {
+    let chars: Vec<char> = text.chars().collect();
+    let at = |i: u16| pick_idx(i, chars.len() + 1).min(chars.len());
+    match e {
+        Edit::Truncate(k) => chars[..at(*k)].iter().collect(),
+        Edit::DropFront(k) => chars[at(*k)..].iter().collect(),
+        Edit::DeleteChar(i) => {
+            if chars.is_empty() {
+                String::new()
+            } else {
+                let p = pick_idx(*i, chars.len());
+                chars[..p].iter().chain(chars[p + 1..].iter()).collect()
+            }
+        }
+        Edit::InsertChar(i, c) => {
+            let p = at(*i);
+            let c = if matches!(c, '<' | '&' | '"' | '\'' | '>') { '_' } else { *c };
+            chars[..p]
+                .iter()
+                .copied()
+                .chain(std::iter::once(c))
+                .chain(chars[p..].iter().copied())
+                .collect()
+        }
+        Edit::Empty => String::new(),
+        Edit::TruncateAtSep(k, _) | Edit::DeleteSep(k) => {
+            let seps: Vec<usize> = chars
+                .iter()
+                .enumerate()
+                .filter(|(_, c)| {
+                    matches!(c, '?' | '=' | ':' | ',' | '/' | '&' | '^' | '-' | '.' | ';' | ' ')
+                })
+                .map(|(i, _)| i)
+                .collect();
+            if seps.is_empty() {
+                return text.to_string();
+            }
+            let p = seps[pick_idx(*k, seps.len())];
+            match e {
+                Edit::TruncateAtSep(_, true) => chars[..=p].iter().collect::<String>(),
+                Edit::TruncateAtSep(_, false) => chars[..p].iter().collect::<String>(),
+                _ => chars[..p]
+                    .iter()
+                    .chain(chars[p + 1..].iter())
+                    .collect::<String>(),
+            }
+        }
+        Edit::Replace(r) => r.clone(),
+        Edit::Duplicate => format!("{text}{text}"),
+    }
+}
+
+/// (start, end) byte ranges of the text nodes with non-blank content
+fn text_nodes(s: &str) -> Vec<(usize, usize)> {
+    let b = s.as_bytes();
+    let mut v = Vec::new();
+    let mut i = 0;
+    while i < b.len() {
+        if b[i] == b'>' {
+            let start = i + 1;
+            let mut j = start;
+            while j < b.len() && b[j] != b'<' {
+                j += 1;
+            }
+            if j < b.len() && s[start..j].chars().any(|c| !c.is_whitespace()) && !s[start..j].contains("]]>") {
+                v.push((start, j));
+            }
+            i = j;
+        } else {
+            i += 1;
+        }
+    }
+    v
+}
+
+/// (start, end) byte ranges of attribute values (inside the quotes)
+fn attr_values(s: &str) -> Vec<(usize, usize)> {
+    let b = s.as_bytes();
+    let mut v = Vec::new();
+    let mut i = 0;
+    let mut in_tag = false;
+    while i < b.len() {
+        match b[i] {
+            b'<' => in_tag = true,
+            b'>' => in_tag = false,
+            q @ (b'"' | b'\'') if in_tag && i > 0 && b[i - 1] == b'=' => {
+                let start = i + 1;
+                let mut j = start;
+                while j < b.len() && b[j] != q {
+                    j += 1;
+                }
+                if j < b.len() {
+                    v.push((start, j));
+                }
+                i = j;
+            }
+            _ => {}
+        }
+        i += 1;
+    }
+    v
 }
 
 pub fn apply(mut data: Vec<u8>, m: &Mutation) -> Vec<u8> {
@@ -154,6 +279,21 @@ pub fn apply(mut data: Vec<u8>, m: &Mutation) -> Vec<u8> {
             }
         }
         Mutation::DoubleMarker => data.extend_from_slice(MARKER.as_bytes()),
+        Mutation::TextEdit(n, e) | Mutation::AttrEdit(n, e) => {
+            if let Ok(s) = std::str::from_utf8(&data) {
+                let spans = if matches!(m, Mutation::TextEdit(..)) {
+                    text_nodes(s)
+                } else {
+                    attr_values(s)
+                };
+                if !spans.is_empty() {
+                    let (a, b) = spans[pick_idx(*n, spans.len())];
+                    let new = edit_text(&s[a..b], e);
+                    let out = format!("{}{}{}", &s[..a], new, &s[b..]);
+                    data = out.into_bytes();
+                }
+            }
+        }
     }
     data
 }
@@ -177,6 +317,29 @@ pub fn mutation() -> impl Strategy<Value = Mutation> {
         1 => Just(Mutation::WrongNamespace),
         1 => Just(Mutation::DropMarker),
         1 => Just(Mutation::DoubleMarker),
+        8 => (any::<u16>(), edit()).prop_map(|(n, e)| Mutation::TextEdit(n, e)),
+        3 => (any::<u16>(), edit()).prop_map(|(n, e)| Mutation::AttrEdit(n, e)),
+    ]
+}
+
+fn edit() -> impl Strategy<Value = Edit> {
+    prop_oneof![
+        4 => any::<u16>().prop_map(Edit::Truncate),
+        2 => any::<u16>().prop_map(Edit::DropFront),
+        3 => any::<u16>().prop_map(Edit::DeleteChar),
+        3 => (any::<u16>(), prop_oneof![
+            Just(' '), Just('?'), Just('='), Just(','), Just(':'), Just('/'), Just('-'), Just('+'), Just('0'),
+            Just('9'), Just('\u{e9}'), Just('\u{1F600}'), Just('%'), Just('#'), Just('^'), Just('\n')])
+            .prop_map(|(i, c)| Edit::InsertChar(i, c)),
+        1 => Just(Edit::Empty),
+        2 => prop_oneof![
+            Just("0"), Just("-1"), Just("4294967296"), Just("18446744073709551616"), Just("1e9"), Just("+5"),
+            Just(" "), Just("urn:"), Just("?"), Just("a:b?c=d&amp;e"), Just("http://"), Just("/"), Just("::/0"),
+            Just("10.0.0.0/33"), Just("/-/"), Just("/24-/8"), Just("inet"), Just("::/129"), Just("1.2.3/8"),
+        ].prop_map(|s| Edit::Replace(s.to_string())),
+        1 => Just(Edit::Duplicate),
+        6 => (any::<u16>(), any::<bool>()).prop_map(|(k, a)| Edit::TruncateAtSep(k, a)),
+        2 => any::<u16>().prop_map(Edit::DeleteSep),
     ]
 }
 
@@ -246,18 +409,24 @@ pub fn feed_reply(spec: &ReqSpec, bytes: &[u8]) -> Fed {
             .unwrap_or_default();
         let bytes_a = bytes.to_vec();
         let (_s, _req, out) = crate::ops::run_req(sess, &wire, spec, |_id| vec![bytes_a]);
+        // does the garbage itself claim to be the reply to B? then A has not been answered at all
+        // (it rightly keeps waiting) and B's oracle does not apply
+        let text = String::from_utf8_lossy(bytes);
+        let targets_b = text.contains(&format!("message-id=\"{id_b}\""))
+            || text.contains(&format!("message-id='{id_b}'"))
+            || text.contains(&format!("message-id = \"{id_b}\""));
         if matches!(out, crate::ops::Outcome::Stuck) {
+            if targets_b {
+                return Fed::Returned {
+                    parsed_beyond_root: true,
+                };
+            }
             return Fed::Stuck("reply future of the request that received the bytes");
         }
         if matches!(out, crate::ops::Outcome::SendStuck | crate::ops::Outcome::Refused(_)) {
             return Fed::OtherCallerBroken(format!("harness: request A not sent: {out:?}"));
         }
         let parsed = !matches!(&out, crate::ops::Outcome::OtherErr(e) if e.contains("DecodeMessage"));
-        // does the garbage itself claim to be the reply to B?
-        let text = String::from_utf8_lossy(bytes);
-        let targets_b = text.contains(&format!("message-id=\"{id_b}\""))
-            || text.contains(&format!("message-id='{id_b}'"))
-            || text.contains(&format!("message-id = \"{id_b}\""));
         if targets_b {
             return Fed::Returned {
                 parsed_beyond_root: parsed,
@@ -314,13 +483,13 @@ impl Prop for Mutations {
          grammars in a generated style, damaged by 0..4 mutations (truncate, delete range, flip \
          byte, insert random or markup bytes, duplicate an element, replace a number by 0 / 2^64 / \
          10^100 / -1 / 2^32, insert a non-UTF-8 byte, nest up to 11000 deep, splice a second copy, \
-         wrong namespace, missing or doubled delimiter), or raw random bytes. Non-trivial = the \
+         wrong namespace, missing or doubled delimiter, and structure-preserving edits of one text node or attribute value: truncate / drop front / delete, insert or duplicate a character / empty / replace by an absurd number or a malformed URI, prefix or length range), or raw random bytes. Non-trivial = the \
          damaged input is still UTF-8 and gets past the message root (i.e. is not rejected by the \
          UTF-8 check alone); distinct by input"
             .into()
     }
     fn cases(&self, tier: Tier) -> u32 {
-        tier.pick(80_000, 3_000_000)
+        tier.pick(400_000, 8_000_000)
     }
     fn strategy(&self, tier: Tier) -> BoxedStrategy<Case> {
         let hello = c12::HelloMatrix.strategy(tier).prop_map(Base::Hello);
